@@ -228,7 +228,9 @@ def wdescr (l : Line) : IO Unit := do
     match wpct p with
     | none => expectNaN g
     | some v => if F64.isFinite g ∧ toRat g == v then "ok" else s!"bad(p~{showRat p},go={showB g},want~{showRat v})")
-  IO.println s!"spec {id} mean={tmean} geo={tgeo} bounds={tb} pct={tp}"
+  let tun := if l.getD "wvar" == "unimpl" ∧ l.getD "wsd" == "unimpl" then "ok"
+    else s!"bad(Variance={l.getD "wvar"},StdDev={l.getD "wsd"},want=refusal)"
+  IO.println s!"spec {id} mean={tmean} geo={tgeo} bounds={tb} pct={tp} unimpl={tun}"
 
 /-! ### t-tests -/
 
@@ -657,6 +659,19 @@ def reuse (l : Line) : IO Unit := do
     | some (p, c) => s!"bad(p={showB p},cdf={showB c})" | none => "ok"
   IO.println s!"spec {id} fresh={fresh} allfresh={allfresh} finite={finite} roundtrip={rt}"
 
+/-- `NormalDist.Rand`: z·σ + μ on the standard normal variate z of the same stream -/
+def nrand (l : Line) : IO Unit := do
+  let mu := bitsD (l.getD "mu"); let sg := bitsD (l.getD "sigma")
+  let zs := bitsList (l.getD "zs"); let vs := bitsList (l.getD "vs")
+  let m := zs.map fun z => showB (F64.add (F64.mul z sg) mu)
+  IO.println s!"obs {l.id} v={showList m}"
+  let bad := (zs.zip vs).find? fun (z, v) =>
+    !(F64.isFinite v && rabs (toRat v - (toRat z * toRat sg + toRat mu)) ≤ 2 * ulp (rabs (toRat z * toRat sg) + rabs (toRat mu)))
+  let verdict := match bad with
+    | some (z, v) => s!"bad(z={showB z},v={showB v})"
+    | none => if l.getD "nilbad" == "0" then "ok" else "bad(nil-source)"
+  IO.println s!"spec {l.id} rand={verdict}"
+
 def randK (l : Line) : IO Unit := do
   let v := if l.getD "nonfinite" == "0" then "ok" else s!"bad({l.getD "nonfinite"}of{l.getD "n"},first={l.getD "firstbad"})"
   IO.println s!"spec {l.id} finite={v}"
@@ -684,6 +699,7 @@ def handle (l : Line) : IO Unit := do
   | "ninv" => ninv l
   | "reuse" => reuse l
   | "rand" => randK l
+  | "nrand" => nrand l
   | "sweep" => IO.println s!"spec {l.id} conv=ok"
   | _ => pure ()
 
